@@ -11,7 +11,7 @@ import math
 
 import numpy as np
 
-from ..core import import_library
+from ..core import describe, import_library
 from ..gen import engines as E
 from ..probe import Probe, Reach
 from ..ref import wiring as W
@@ -123,10 +123,10 @@ class HistoryMonitor:
         try:
             fresh.process()
         except Exception as ex:
-            ctx.violation(f"a fresh engine raises {type(ex).__name__} on inputs the used engine accepts", {"engine": str(engine)}, "no error", repr(ex)[:200])
+            ctx.violation(f"a fresh engine raises {type(ex).__name__} on inputs the used engine accepts", {"engine": describe(engine)}, "no error", repr(ex)[:200])
             return
         ctx.hit("compare:process vs fresh engine")
-        case = {"engine": str(engine), "inputs": [v.value for v in engine.input_variables]}
+        case = {"engine": describe(engine), "inputs": [v.value for v in engine.input_variables]}
         for ov, fv in zip(engine.output_variables, fresh.output_variables):
             # (a disabled output variable is left untouched by processing - C12 - so its value is not an output of the step)
             if ov.enabled and not W.agree(ctx, ov.value, fv.value, "output value"):
@@ -144,7 +144,7 @@ class HistoryMonitor:
                 if bool(np.all(r.triggered)) != bool(np.all(f.triggered)) or not W.agree(ctx, r.activation_degree, f.activation_degree, "rule degree"):
                     ctx.violation("a rule's degree / triggered flag after a processing step differs from a freshly built engine given the same inputs (history leaks)", dict(case, rule=r.text, block=rb.name), [f.activation_degree, f.triggered], [r.activation_degree, r.triggered])
                     return
-        ctx.nontrivial("process", str(engine), tuple(tuple(np.atleast_1d(np.asarray(v.value, dtype=float)).tolist()) for v in engine.input_variables))
+        ctx.nontrivial("process", describe(engine), tuple(tuple(np.atleast_1d(np.asarray(v.value, dtype=float)).tolist()) for v in engine.input_variables))
 
     def _after_restart(self, args, kwargs, token, result, exc):
         ctx, fl, engine = self.ctx, self.fl, args[0]
@@ -171,14 +171,14 @@ class HistoryMonitor:
         for msg in closure_violations(engine, fl):
             ctx.violation("restart(): a reference points outside the engine", dict(case, detail=msg), "inside", msg)
         fresh = self.fresh_engine(engine)
-        if fresh is not None and str(fresh) != str(engine):
-            ctx.violation("restart(): the engine's description differs from a fresh engine", case, str(fresh), str(engine))
+        if fresh is not None and str(fresh) != describe(engine):
+            ctx.violation("restart(): the engine's description differs from a fresh engine", case, str(fresh), describe(engine))
 
     def _after_copy(self, args, kwargs, token, result, exc):
         ctx, fl, engine = self.ctx, self.fl, args[0]
         ctx.evaluated()
         if exc is not None:
-            ctx.violation(f"copy() raises {type(exc).__name__}", {"engine": str(engine)}, "a copy", repr(exc)[:200])
+            ctx.violation(f"copy() raises {type(exc).__name__}", {"engine": describe(engine)}, "a copy", repr(exc)[:200])
             return
         dup = result
         ctx.hit("compare:copy")
@@ -194,8 +194,8 @@ class HistoryMonitor:
             ctx.violation("copy(): a mutable object is reachable from both the original and the copy", {"engine": engine.name, "shared": [f"{type(o).__name__}: {str(o)[:80]}" for o in shared[:5]]}, 0, len(shared))
         for msg in closure_violations(dup, fl):
             ctx.violation("copy(): a reference of the copy points outside the copy", {"engine": engine.name, "detail": msg}, "inside", msg)
-        if str(dup) != str(engine) or repr(dup) != repr(engine):
-            ctx.violation("copy(): the copy's FLL/Python description differs from the original", {"engine": engine.name}, str(engine), str(dup))
+        if str(dup) != describe(engine) or repr(dup) != repr(engine):
+            ctx.violation("copy(): the copy's FLL/Python description differs from the original", {"engine": engine.name}, describe(engine), str(dup))
         for ov, cv in zip(engine.output_variables, dup.output_variables):
             if not (W.same(ov.value, cv.value) and W.same(ov.previous_value, cv.previous_value) and len(ov.fuzzy.terms) == len(cv.fuzzy.terms)):
                 ctx.violation("copy(): the copy's state differs from the original's", {"engine": engine.name, "variable": ov.name}, [ov.value, ov.previous_value], [cv.value, cv.previous_value])
@@ -272,6 +272,14 @@ def run(ctx):
                                     v.value = [float(x) for x in col]
                                 ctx.hit("input type:" + typed)
                     elif op == "refill":  # the same input arrays, refilled in place (identity-keyed caches would go stale)
+                        if not scalar_only and not all(isinstance(v.value, np.ndarray) and v.value.ndim == 1 and v.value.dtype.kind == "f" for v in engine.input_variables):
+                            first = E.rows(rnd, spec, 3)
+                            if rnd.random() < 0.5:
+                                engine.input_values = np.array(first, dtype=float)
+                            else:
+                                for k, v in enumerate(engine.input_variables):
+                                    v.value = np.array([r[k] for r in first], dtype=float)
+                            engine.process()
                         for k, v in enumerate(engine.input_variables):
                             if isinstance(v.value, np.ndarray) and v.value.ndim == 1 and not v.lock_range and v.value.flags.writeable:
                                 v.value[:] = [r[k] for r in E.rows(rnd, spec, v.value.size)]
